@@ -16,7 +16,17 @@
         outcome \in Allowed   (never Internal / Hang / an undocumented None).
    The space is finite; TLC enumerates it completely (MC_DriverErr.cfg) and checks
    that the table is total, non-empty and class-consistent; the binding executes
-   every point of the same product on the real drivers (Trace_DriverErr).        *)
+   every point of the same product on the real drivers (Trace_DriverErr).
+
+   OPERATIONS (second half of the module).  Discovery and activation --
+   ContactlessFrontend.sense(target) / listen(target, timeout), i.e. mute() followed
+   by the driver's sense_tta/ttb/ttf/dep or listen_tta/ttb/ttf/dep -- are modelled
+   the same way: an operation kind (S.. / L..) fixes the target argument and what
+   the remote device does on the air; OpCmds(d,k) is the host command sequence of
+   the fault-free run as the driver code has it, Expect(d,k) the documented result
+   (a target, None, or UnsupportedTargetError where nfc/clf/device.py says the
+   method or bit rate is not supported), OpAllowed the documented outcome classes
+   when ONE fault hits host command `at`:  Target | NoTarget | Unsupported | IOErr.  *)
 EXTENDS Naturals, Sequences, FiniteSets, TLC
 
 Drivers == {"pn531", "pn532", "pn533", "rcs956", "acr122", "arygon", "rcs380", "udp"}
@@ -26,20 +36,32 @@ Pn532ish  == {"pn532", "pn533", "arygon"}
 
 InitKinds   == {"TT1", "TT1CIU", "TT2", "TT4A", "TT4B", "TT3", "DEPA", "DEPF", "DEPACT"}
 TargetKinds == {"LTT2", "LTT4", "LTT3", "LDEP", "LDEPRX"}
-Mode(k) == IF k \in TargetKinds THEN "target" ELSE "initiator"
+\* operations: sense (S..) and listen (L..) scenarios, see the second half of the module
+SttbKinds   == {"STTB106", "STTB212", "STTB424", "STTB848"}
+SttfKinds   == {"STTF212", "STTF424"}
+SdepKinds   == {"SDEP106", "SDEP212", "SDEP424"}
+SenseKinds  == {"STTA2", "STTA4", "STTADEP", "STTA1", "STTA0", "STTA212"} \cup SttbKinds \cup SttfKinds \cup SdepKinds
+LfKinds     == {"LF212", "LF424"}
+LdepKinds   == {"LDEPA", "LDEPF", "LDEPACT"}
+ListenKinds == {"LA2", "LA4", "LA4D", "LADEP", "LA212", "LB106"} \cup LfKinds \cup LdepKinds
+OpKinds     == SenseKinds \cup ListenKinds
+Mode(k) == IF k \in TargetKinds THEN "target" ELSE IF k \in SenseKinds THEN "sense"
+           ELSE IF k \in ListenKinds THEN "listen" ELSE "initiator"
 
-Kinds(d) ==
+ExKinds(d) ==
   CASE d = "pn531"  -> (InitKinds \ {"TT1", "TT1CIU", "TT4B"}) \cup TargetKinds
     [] d \in Pn532ish -> InitKinds \cup TargetKinds
     [] d = "rcs956" -> (InitKinds \ {"TT1CIU"}) \cup {"LTT2", "LDEP", "LDEPRX"}
     [] d = "acr122" -> InitKinds \ {"TT1", "TT1CIU"}
     [] d = "rcs380" -> (InitKinds \ {"TT1CIU", "DEPACT"}) \cup TargetKinds
     [] d = "udp"    -> {"TT2", "TT3", "DEPA", "LTT3", "LDEP"}
+\* every driver is asked for every operation: what it does not support must say so as documented
+Kinds(d) == ExKinds(d) \cup OpKinds
 
 Rep(x, n) == [i \in 1..n |-> x]
 
 \* the host commands of one exchange, in order (names as the simulated chip logs them)
-Cmds(d, k) ==
+ExCmds(d, k) ==
   IF d = "udp" THEN <<"sendto", "recvfrom">>
   ELSE IF d = "rcs380" THEN
        IF k \in TargetKinds THEN <<"TgCommRF">>
@@ -55,6 +77,106 @@ Cmds(d, k) ==
          [] k \in {"LTT2", "LTT4", "LDEP"} -> <<"TgResponseToInitiator", "TgGetInitiatorCommand">>
          [] OTHER        -> pre \o <<"InCommunicateThru">>
 
+----------------------------------------------------------------------------
+\* OPERATIONS: ContactlessFrontend.sense() / listen() = mute() + sense_xxx / listen_xxx (+ mute() again when a
+\* sense found nothing).  Scenarios:
+\*   STTA2/4/DEP  106A, a Type 2 / Type 4A / NFC-DEP (passive) target answers     STTA1  a Type 1 Tag answers
+\*   STTA0        nothing answers        STTA212  212A        STTBnnn / STTFnnn  a Type B / Type F target at nnn kbps
+\*   SDEPnnn      active mode ATR_REQ at nnn kbps, a target answers
+\*   LA2/LA4/LADEP  106A listen, the initiator sends a Type 2 command / RATS + a Type 4 command / ATR_REQ
+\*   LA4D         as LA4 but the initiator first deselects and activates again            LA212  212A listen
+\*   LB106        Type B listen           LFnnn  Type F listen: SENSF_REQ, then a Type 3 Tag command
+\*   LDEPA        NFC-DEP listen, passive 106A: ATR_REQ, DEP_REQ      LDEPF  passive 424F: ATR_REQ, PSL_REQ, DEP_REQ
+\*   LDEPACT      active mode 424F: ATR_REQ, DEP_REQ
+Pers(d) == IF d \in {"acr122", "arygon"} THEN "pn532" ELSE d            \* the chip inside
+HasT1(d) == d \in {"pn532", "pn533", "rcs956", "arygon"}               \* InListPassiveTarget brty 4 (acr122: removed)
+BrtyB(d) == IF d = "pn531" THEN {} ELSE IF d = "pn533" THEN SttbKinds ELSE {"STTB106"}
+Mute(d) == IF d = "rcs956" THEN <<"ResetMode", "RFConfiguration">> ELSE IF d = "rcs380" THEN <<"SwitchRF">>
+           ELSE IF d = "udp" THEN <<>> ELSE <<"RFConfiguration">>
+
+\* the documented result of the fault-free operation (nfc/clf/device.py, nfc/clf/__init__.py sense/listen)
+Expect(d, k) ==
+  IF d \in Pn53xFam THEN
+       CASE k \in {"STTA2", "STTA4", "STTADEP"} \cup SttfKinds \cup SdepKinds -> "Target"
+         [] k = "STTA1" -> IF HasT1(d) THEN "Target" ELSE "NoTarget"
+         [] k = "STTA0" -> "NoTarget"
+         [] k = "STTA212" -> "Unsupported"
+         [] k \in SttbKinds -> IF k \in BrtyB(d) THEN "Target" ELSE "Unsupported"
+         [] k \in {"LA212", "LB106"} -> "Unsupported"
+         [] d = "acr122" -> "Unsupported"                                  \* no listen mode at all
+         [] d = "rcs956" /\ k \in {"LA4", "LA4D"} \cup LfKinds -> "Unsupported"
+         [] d = "rcs956" /\ k = "LDEPACT" -> "NoTarget"                    \* active mode target disabled by the driver
+         [] OTHER -> "Target"
+  ELSE IF d = "rcs380" THEN
+       CASE k = "STTA0" -> "NoTarget"
+         [] k \in {"STTB848", "LA212", "LB106", "LADEP"} \cup SdepKinds -> "Unsupported"
+         [] k = "LDEPACT" -> "NoTarget"                                    \* passive activation only
+         [] OTHER -> "Target"
+  ELSE CASE k = "STTA0" -> "NoTarget"
+         [] k \in {"STTB848"} \cup SdepKinds -> "Unsupported"
+         [] OTHER -> "Target"
+
+Pn53xOpCmds(d, k) ==
+  LET m == Mute(d)
+      init == <<"WriteRegister", "TgInitAsTarget">>
+      rats == <<"TgResponseToInitiator", "TgGetInitiatorCommand">>
+      \* rcs956.listen_dep: mode 0, WaitForSelected, TO, no automatic ATR_RES; ATR_RES goes out by TgSetGeneralBytes
+      pre  == IF d = "rcs956" THEN <<"ResetMode", "WriteRegister", "RFConfiguration", "SetParameters">> ELSE <<>>
+      atr  == IF d = "rcs956" THEN "TgSetGeneralBytes" ELSE "TgResponseToInitiator"
+      psl  == <<"ReadRegister", "WriteRegister", "TgResponseToInitiator", "ReadRegister", "WriteRegister">>
+  IN
+  CASE Expect(d, k) = "Unsupported" -> m
+    [] k = "STTA2" -> m \o <<"InListPassiveTarget", "ReadRegister", "WriteRegister">>
+    [] k \in {"STTA4", "STTADEP"} -> m \o <<"InListPassiveTarget">>
+    [] k = "STTA1" /\ HasT1(d) -> m \o <<"InListPassiveTarget", "ReadFIFOData", "InListPassiveTarget", "InDataExchange">>
+    [] k \in {"STTA1", "STTA0"} -> m \o <<"InListPassiveTarget", "ReadFIFOData">> \o m
+    [] k \in SttbKinds -> m \o <<"InListPassiveTarget", "InCommunicateThru", "InCommunicateThru">>
+    [] k \in SttfKinds -> m \o <<"ReadRegister", "RFConfiguration", "InListPassiveTarget">>
+    [] k \in SdepKinds -> m \o (IF d = "rcs956" THEN <<"RFConfiguration">> ELSE <<>>) \o <<"InJumpForPSL", "WriteRegister">>
+    [] k \in {"LA2", "LADEP"} -> m \o init
+    [] k = "LA4"  -> m \o init \o rats
+    [] k = "LA4D" -> m \o init \o rats \o <<"TgResponseToInitiator", "TgInitAsTarget">> \o rats
+    [] k \in LfKinds -> m \o <<"WriteRegister", "WriteRegister", "ReadRegister", "WriteRegister", "ReadFIFOLevel", "ReadFIFOData">>
+    [] k = "LDEPACT" /\ d = "rcs956" -> m \o pre \o init
+    [] k \in {"LDEPA", "LDEPACT"} -> m \o pre \o init \o <<atr, "TgGetInitiatorCommand", "WriteRegister">>
+    [] k = "LDEPF" -> m \o pre \o init \o <<atr, "TgGetInitiatorCommand">> \o psl \o <<"TgGetInitiatorCommand", "WriteRegister">>
+
+Rcs380OpCmds(k) ==
+  LET m == <<"SwitchRF">>
+      ins == <<"InSetRF", "InSetProtocol", "InSetProtocol", "InCommRF">>
+      tgs == <<"TgSetRF", "TgSetProtocol", "TgSetProtocol">>
+  IN
+  CASE k = "LADEP" -> m \o tgs                                   \* sel_res without tag support: refused after the setup
+    [] Expect("rcs380", k) = "Unsupported" -> m
+    [] k \in {"STTA2", "STTA4", "STTADEP", "STTA212"} ->
+         m \o ins \o <<"InSetProtocol", "InSetProtocol", "InCommRF", "InSetProtocol", "InCommRF">>
+    [] k = "STTA1" -> m \o ins \o <<"InSetProtocol", "InCommRF">>
+    [] k = "STTA0" -> m \o ins \o m
+    [] k \in SttbKinds \cup SttfKinds -> m \o ins
+    [] k = "LA2" -> m \o tgs \o <<"TgCommRF", "TgSetProtocol">>
+    [] k \in {"LA4"} \cup LfKinds -> m \o tgs \o <<"TgCommRF", "TgCommRF", "TgSetProtocol">>
+    [] k = "LA4D" -> m \o tgs \o <<"TgCommRF", "TgCommRF", "TgCommRF", "TgCommRF", "TgSetProtocol">>
+    [] k = "LDEPA" -> m \o tgs \o <<"TgCommRF", "TgSetProtocol", "TgCommRF">>
+    [] k = "LDEPF" -> m \o tgs \o <<"TgCommRF", "TgSetProtocol", "TgCommRF", "TgCommRF", "TgSetRF", "TgCommRF">>
+    [] k = "LDEPACT" -> m \o tgs \o <<"TgCommRF", "TgCommRF">>
+
+\* udp: one datagram out = sendto, waiting for and reading one datagram = recvfrom, listen binds the port first
+UdpOpCmds(k) ==
+  LET sr == <<"sendto", "recvfrom">>
+      rs == <<"recvfrom", "sendto">>
+  IN
+  CASE Expect("udp", k) = "Unsupported" -> <<>>
+    [] k \in {"STTA2", "STTA4", "STTADEP", "STTA212"} -> sr \o sr \o sr
+    [] k = "STTA1" -> sr \o sr
+    [] k \in {"STTA0"} \cup SttbKinds \cup SttfKinds -> sr
+    [] k \in {"LA2", "LA4", "LA4D", "LADEP", "LA212"} -> <<"bind">> \o rs \o rs \o rs \o <<"recvfrom">>
+    [] k \in {"LB106", "LDEPACT"} \cup LfKinds -> <<"bind">> \o rs \o <<"recvfrom">>
+    [] k = "LDEPA" -> <<"bind">> \o rs \o rs \o rs \o rs \o <<"recvfrom">>
+    [] k = "LDEPF" -> <<"bind">> \o rs \o rs \o rs \o <<"recvfrom">>
+
+OpCmds(d, k) == IF d \in Pn53xFam THEN Pn53xOpCmds(d, k) ELSE IF d = "rcs380" THEN Rcs380OpCmds(k) ELSE UdpOpCmds(k)
+
+Cmds(d, k) == IF k \in OpKinds THEN OpCmds(d, k) ELSE ExCmds(d, k)
 NCmd(d, k) == Len(Cmds(d, k))
 IsFinal(d, k, at) == at = NCmd(d, k)
 
@@ -114,9 +236,36 @@ SliceFaults(d, c, final, tier) ==
     \cup (IF HasStatus(d, c) THEN {F("ChipStatus", s) : s \in StatusDom(final, tier)} ELSE {})
     \cup (IF d \in Pn53xFam /\ c \in RegReads THEN {F("RegValue", s) : s \in RegDom(c, final, tier)} ELSE {})
 
+\* ---- faults of the operations --------------------------------------------------------------
+\* RF commands: their status byte / communication status reports what happened on the air
+RfCmds == {"InListPassiveTarget", "InJumpForPSL", "InCommunicateThru", "InDataExchange", "TgGetInitiatorCommand",
+           "TgResponseToInitiator", "TgSetGeneralBytes", "InCommRF", "TgCommRF"}
+\* commands whose answer carries what the remote device sent (a target can only be reported from their data)
+Decisive == {"InListPassiveTarget", "InJumpForPSL", "InCommunicateThru", "InDataExchange", "TgInitAsTarget",
+             "TgGetInitiatorCommand", "InCommRF", "TgCommRF", "ReadFIFOLevel", "ReadFIFOData", "recvfrom"}
+OpHasStatus(d, c) ==
+  \/ c \in RfCmds \ {"InListPassiveTarget", "InCommRF", "TgCommRF"}
+  \/ d = "pn533" /\ c \in RegReads \cup {"WriteRegister"}
+  \/ d = "rcs956" /\ c = "WriteRegister"
+  \/ d = "rcs380" /\ c \in {"InSetRF", "InSetProtocol", "SwitchRF", "TgSetRF", "TgSetProtocol"}
+QuickOpStatus == {0, 1, 2, 10, 11, 41, 49, 64, 128, 255}
+OpStatusDom(tier) == IF tier = "thorough" THEN 0..255 ELSE IF tier = "quick" THEN QuickOpStatus ELSE {0, 1}
+OpRegDom(c, tier) == IF tier = "thorough" THEN RegDomain(c) ELSE RegDomain(c) \cap {0, 1, 2, 32, 38, 48, 255}
+OpMaskOk(m, tier) == PopCount(m) <= (IF tier = "thorough" THEN 2 ELSE 1)
+UdpBindFaults == {F("HostIO", 0), F("AddrInUse", 0)}
+OpFaults(d, c, tier) ==
+  IF d = "udp" THEN (IF c = "bind" THEN UdpBindFaults ELSE IF c = "sendto" THEN UdpSendFaults ELSE UdpRecvFaults)
+  ELSE LinkFaults(d)
+    \cup (IF HasCommStatus(d, c) THEN {F("CommStatus", m) : m \in {x \in 0..4095 : OpMaskOk(x, tier)}} ELSE {})
+    \cup (IF OpHasStatus(d, c) THEN {F("ChipStatus", s) : s \in OpStatusDom(tier)} ELSE {})
+    \* InListPassiveTarget answers with the number of targets found (NbTg), 1 in the scenarios
+    \cup (IF c = "InListPassiveTarget" THEN {F("NbTg", s) : s \in {0, 1, 2, 255}} ELSE {})
+    \cup (IF d \in Pn53xFam /\ c \in RegReads THEN {F("RegValue", s) : s \in OpRegDom(c, tier)} ELSE {})
+
 Case(d, k, at, f) == [d |-> d, k |-> k, at |-> at, f |-> f]
 SliceCases(d, k, tier) ==
-  UNION {{Case(d, k, at, f) : f \in SliceFaults(d, Cmds(d, k)[at], IsFinal(d, k, at), tier)}
+  UNION {{Case(d, k, at, f) : f \in (IF k \in OpKinds THEN OpFaults(d, Cmds(d, k)[at], tier)
+                                      ELSE SliceFaults(d, Cmds(d, k)[at], IsFinal(d, k, at), tier))}
          : at \in 1..NCmd(d, k)}
 AllCases(tier) == UNION {UNION {SliceCases(d, k, tier) \cup {Case(d, k, 0, NoFault)} : k \in Kinds(d)}
                          : d \in Drivers}
@@ -125,7 +274,9 @@ AllCases(tier) == UNION {UNION {SliceCases(d, k, tier) \cup {Case(d, k, 0, NoFau
 \* Outcome classes
 Documented == {"Data", "Timeout", "BrokenLink", "Transmission", "Protocol", "IOErr"}
 Errs       == Documented \ {"Data"}
-Outcomes   == Documented \cup {"NoData", "Hang", "Internal", "CommOther"}
+\* sense()/listen(): a target, None, UnsupportedTargetError, or IOError when the local device can not be talked to
+OpDocumented == {"Target", "NoTarget", "Unsupported", "IOErr"}
+Outcomes   == Documented \cup OpDocumented \cup {"NoData", "Hang", "Internal", "CommOther", "ValueError"}
 \* NoData = exchange() returned None: documented only "if data is sent as a target" and the link broke
 NoneOk(k) == IF Mode(k) = "target" THEN {"NoData"} ELSE {}
 
@@ -145,14 +296,36 @@ FlagClass(mode, fl) ==
 
 Benign(d, k, at, f) ==
   \/ f.k = "None"
-  \/ IsFinal(d, k, at) /\ f.k \in {"ChipStatus", "CommStatus"} /\ f.v = 0
+  \/ k \notin OpKinds /\ IsFinal(d, k, at) /\ f.k \in {"ChipStatus", "CommStatus"} /\ f.v = 0
+  \/ k \in OpKinds /\ f.k \in {"ChipStatus", "CommStatus"} /\ f.v = 0
+  \/ k \in OpKinds /\ f.k = "NbTg" /\ f.v = 1
+
+\* sense()/listen() with one fault at host command `at`
+OpAllowed(d, k, at, f) ==
+  LET c == Cmds(d, k)[at]
+      exp == Expect(d, k)
+  IN
+  IF Benign(d, k, at, f) THEN {exp}
+  \* the air failed (or, NbTg, found something else): no target; a target only if it is still the right one
+  ELSE IF f.k \in {"ChipStatus", "CommStatus", "NbTg"} /\ c \in RfCmds THEN {"NoTarget"} \cup ({exp} \cap {"Target"})
+  \* a CIU register value: whatever the driver concludes from it, but never an error
+  ELSE IF f.k = "RegValue" THEN {exp, "NoTarget"}
+  \* udp: somebody else listens on the port already
+  ELSE IF f.k = "AddrInUse" THEN {"NoTarget"}
+  \* the host link failed / the chip refused a configuration command
+  ELSE IF c \in Decisive
+       THEN {"NoTarget", "IOErr"}
+            \* rcs380.Frame does not verify checksums / postamble (outside the C14 statement)
+            \cup (IF d = "rcs380" /\ f.k \in {"BadChecksum", "CutTail"} THEN {exp} ELSE {})
+       ELSE {exp, "NoTarget", "IOErr"}
 
 Allowed(d, k, at, f) ==
   LET c == Cmds(d, k)[at]
       mode == Mode(k)
       final == IsFinal(d, k, at)
   IN
-  IF f.k = "None" THEN {"Data"}
+  IF f.k = "None" THEN (IF k \in OpKinds THEN {Expect(d, k)} ELSE {"Data"})
+  ELSE IF k \in OpKinds THEN OpAllowed(d, k, at, f)
   ELSE IF ~final THEN
        \* preparatory command: the property only demands the class (data if the driver can carry on)
        Documented \cup NoneOk(k)
@@ -191,21 +364,35 @@ vars == <<c, o, pc>>
 
 Cases == AllCases(Tier)
 
-Init == c = Case("pn531", "TT2", 0, NoFault) /\ o = "-" /\ pc = "idle"
+\* one initial state per slice (driver, kind): TLC spreads the slices over its workers
+Init == /\ \E d \in Drivers : \E k \in Kinds(d) : c = Case(d, k, 0, NoFault)
+        /\ o = "-" /\ pc = "idle"
 Exchange(cs, out) == /\ pc = "idle"
                      /\ out \in Allowed(cs.d, cs.k, cs.at, cs.f)
                      /\ c' = cs /\ o' = out /\ pc' = "done"
-Next == pc = "idle" /\ \E cs \in Cases : \E out \in Allowed(cs.d, cs.k, cs.at, cs.f) : Exchange(cs, out)
+Next == pc = "idle" /\ \E cs \in SliceCases(c.d, c.k, Tier) \cup {c} :
+                         \E out \in Allowed(cs.d, cs.k, cs.at, cs.f) : Exchange(cs, out)
 Spec == Init /\ [][Next]_vars
 
 \* ---- invariants ------------------------------------------------------------------------
 Done == pc = "done"
-OutcomeDocumented == Done => o \in Documented \cup NoneOk(c.k)
-\* the table itself (evaluated once, on the initial state): total, non-empty, never permits an internal
+OutcomeDocumented == Done => o \in (IF c.k \in OpKinds THEN OpDocumented ELSE Documented \cup NoneOk(c.k))
+\* the table itself (evaluated on the initial state of every slice): total, non-empty, never permits an internal
 \* outcome; benign faults give data; a broken host link at the RF exchange command never yields data
 \* (except the unverified RC-S380 checksums); chip time-out status 01h is a TimeoutError for an initiator
 HostBroken == {"HostIO", "HostIOW", "DeviceGone", "HostTimeout", "NoAck", "BadAck", "ShortFrame", "WrongCode"}
-CaseOk(cs) ==
+OpCaseOk(cs) ==
+  LET a == Allowed(cs.d, cs.k, cs.at, cs.f)
+      exp == Expect(cs.d, cs.k)
+  IN /\ a # {}
+     /\ a \subseteq OpDocumented
+     /\ (Benign(cs.d, cs.k, cs.at, cs.f) => a = {exp})
+     \* UnsupportedTargetError is only ever the answer of an operation the driver does not support
+     /\ ("Unsupported" \in a => exp = "Unsupported")
+     /\ ("Target" \in a => exp = "Target")
+     \* a broken host link at the command that carries the remote device's data never yields a target
+     /\ (cs.at > 0 /\ Cmds(cs.d, cs.k)[cs.at] \in Decisive /\ cs.f.k \in HostBroken => "Target" \notin a)
+ExCaseOk(cs) ==
   LET a == Allowed(cs.d, cs.k, cs.at, cs.f)
       fin == cs.at > 0 /\ IsFinal(cs.d, cs.k, cs.at)
   IN /\ a # {}
@@ -215,7 +402,8 @@ CaseOk(cs) ==
      /\ (fin /\ cs.f = F("ChipStatus", 1) /\ Mode(cs.k) = "initiator" => a = {"Timeout"})
      /\ (fin /\ cs.f.k = "ChipStatus" /\ FlagStatus(Cmds(cs.d, cs.k)[cs.at])
            => a = StatusClass(Mode(cs.k), cs.f.v % 64) \cup (IF cs.f.v % 64 = 0 THEN {} ELSE NoneOk(cs.k)))
-TableOk == pc = "idle" => \A cs \in Cases : CaseOk(cs)
+CaseOk(cs) == IF cs.k \in OpKinds THEN OpCaseOk(cs) ELSE ExCaseOk(cs)
+TableOk == pc = "idle" => \A cs \in SliceCases(c.d, c.k, Tier) \cup {c} : CaseOk(cs)
 
 \* reachability witnesses (each must be violated)
 W_Data == ~(Done /\ o = "Data" /\ c.at > 0)
@@ -225,4 +413,7 @@ W_Transmission == ~(Done /\ o = "Transmission")
 W_Protocol == ~(Done /\ o = "Protocol")
 W_IOErr == ~(Done /\ o = "IOErr")
 W_NoData == ~(Done /\ o = "NoData")
+W_Target == ~(Done /\ o = "Target" /\ c.at > 0)
+W_NoTarget == ~(Done /\ o = "NoTarget" /\ c.at > 0)
+W_Unsupported == ~(Done /\ o = "Unsupported")
 =============================================================================
